@@ -90,6 +90,12 @@ def check(ctx):
                "the same list, reorder removes each picked element from the remainder (or rejects duplicates), and the new list is published", floor=4)
     ctx.guarded(o, lambda o: facades(ctx, o))
 
+    o = ctx.ob('shared_child_list', 'R1',
+               "one child list object per task, shared with every children facade: facades change it in place and publish that very object, "
+               "nothing rebinds it (otherwise a list obtained earlier goes stale and a later remove()/append() through it re-attaches or "
+               "drops tasks)", floor=4)
+    ctx.guarded(o, lambda o: T.shared_list(ctx, o))
+
     o = ctx.ob('sibling_setters_agree', 'R11',
                "the predecessors and successors setters have the same guard set and the same write pattern under the renaming pred<->succ", floor=1)
     ctx.guarded(o, lambda o: sibling(ctx, o))
